@@ -173,6 +173,11 @@ func VerifC10_Bits() {
 		g2 += int((z & 1) ^ ((z & 2) >> 1))
 	}
 	verifAssert(g2 == gc, "gc-count-formula-equals-string-count")
+	if verifParam("concretegc") == 0 {
+		// the real GCof on the symbolic k-mer: its int-to-float conversion case-splits the count
+		// (job option floatsplit), so the float comparison is between concrete values
+		verifAssert(GCof(k, x) == float64(verifConcrete(gc))/float64(k), "gcof-equals-string-gc-fraction")
+	}
 	if verifParam("concretegc") == 1 {
 		xc := Kmer(verifConcrete(int(x)))
 		gcc := 0
